@@ -604,6 +604,8 @@ def build_graph(args, N0: float) -> demes.Graph:
         # The params gleaned from Split/Join events, which are used to collapse
         # ancestry into plain old pulse migrations.
         split_join_params: List[Tuple[int, int, float]] = []
+        # Populations with this index or above are created by -es in this group.
+        group_first_new = num_demes
 
         for event in events_group:
             if isinstance(event, GrowthRateChange):
@@ -711,11 +713,16 @@ def build_graph(args, N0: float) -> demes.Graph:
                 for lm in lineage_movements:
                     lm[pop_j] += lm[pop_i]
                     lm[pop_i] = 0
+                retargeted = False
                 for idx, (g, h, q) in reversed(list(enumerate(split_join_params))):
                     if h == pop_i:
                         split_join_params[idx] = (g, pop_j, q)
+                        retargeted = True
                         break
-                else:
+                if not retargeted or pop_i < group_first_new:
+                    # A population that existed before this group needs its own
+                    # entry even when an earlier movement into it was retargeted
+                    # (e.g. "-ej t 3 2 -ej t 2 1" followed by more movements).
                     split_join_params.append((pop_i, pop_j, 1))
 
                 mm = migration_matrix_at(time)
